@@ -21,6 +21,7 @@ def parseOp (op : String) (kv : KV) : Option Op :=
   | "pause" => do pure (.pause (← getNat kv "c") (← getB kv "svc") (← getNat kv "drt") (← getNat kv "failafter"))
   | "stop" => do pure (.stop (← getNat kv "c") (← getB kv "svc") (← getNat kv "drt") (← getB kv "msg"))
   | "resume" => do pure (.resume (← getNat kv "c") (← getB kv "svc"))
+  | "repause" => do pure (.repause (← getNat kv "c") (← getB kv "svc") (← getNat kv "drt") (← getNat kv "failafter"))
   | "remove" => do pure (.remove (← getNat kv "c") (← getB kv "svc"))
   | "rollout-set" => do pure (.rolloutSet (← getNat kv "c") (← getB kv "svc") (← getInt kv "percent") (← getL kv "allow"))
   | "rollout-stop" => do pure (.rolloutStop (← getNat kv "c") (← getB kv "svc"))
